@@ -40,7 +40,9 @@ THEOREMS = [
     "standalone_no_is_absent",
     "loader_fetches_only_named",
     "foreign_namespace_names_nothing",
-    "lookalikes_change_no_fetch",
+    "reference_without_location_names_nothing",
+    "references_resolve_against_container",
+    "load_depends_on_named_documents_only",
     "lookalike_names_nothing_in_context",
     "feature_on_reaches_outside",
 ]
@@ -1083,6 +1085,157 @@ def g_lookalikes_wsdl(rng, pre):
     return out
 
 
+# ---- multi-directory sites -------------------------------------------------------
+
+SHARED_NS_POOL = ["urn:c20:shared:types", "http://vendor.c20.invalid/contracts/common", "common-types",
+                  "../shared/ns", "urn:c20:shared:other", "http://ns.c20.invalid/base/"]
+W2_NS = "urn:c20:w2"
+_DECOY_CACHE = {}
+
+
+def schema_doc(tns, kids):
+    return mk_doc([], E("xsd:schema", [("targetNamespace", tns), ("xmlns:xsd", XSD_NS), ("xmlns:tns", tns)], *kids))
+
+
+def ctype_el(name, elname):
+    return E("xsd:complexType", [("name", name)],
+             E("xsd:sequence", [], E("xsd:element", [("name", elname), ("type", "xsd:string")])))
+
+
+def decoy_doc(kind, tns):
+    """(AST, bytes) of a decoy: well-formed, mergeable, full of marker text."""
+    key = (kind, tns)
+    if key not in _DECOY_CACHE:
+        if kind == "wsdl":
+            d = mk_doc([], wsdl2_body([T("~decoy~")]))
+        else:
+            d = schema_doc(tns, [ctype_el("Inner", "decoy~leak~"), ctype_el("Decoy~leak~", "x")])
+        _DECOY_CACHE[key] = (d, render_doc(d, lambda s: "unused"))
+    return _DECOY_CACHE[key]
+
+
+def relpath(from_dir, to_path):
+    import posixpath
+    return posixpath.relpath("/" + to_path, "/" + from_dir) if from_dir else to_path
+
+
+def g_site(rng, k, history_locs):
+    """A service whose documents live in several directories and refer to each other by RELATIVE
+    locations (include / import chains, wsdl:import), with imports that carry no location at all, plus
+    the decoys served at every location a sloppy loader could come up with."""
+    hosts = ["http://svc-a.c20.invalid/", "http://svc-b.c20.invalid/", "http://127.0.0.1:%d/real/site/" % WORLD.port,
+             "file://" + WORLD.real + "/site/", "http://svc-c.c20.invalid/deep/er/"]
+    B = hosts[k % len(hosts)]
+    app, sch, shared, more, other = [("app/", "app/schemas/v2/", "shared/", "shared/more/", "other/"),
+                                     ("svc/", "svc/types/", "common/", "common/x/y/", "svc/sub/"),
+                                     ("", "xsd/", "lib/", "lib/leaf/", "w/")][(k // 5) % 3]
+    tns = "urn:c20:site:%d" % (k % 7)
+    ns_loc = SHARED_NS_POOL[k % 6]
+    noloc = [SHARED_NS_POOL[(k + 1) % 6], SHARED_NS_POOL[(k + 3) % 6]]
+    with_common = rng.random() < 0.8
+    with_base = rng.random() < 0.75
+    with_leaf = with_base and rng.random() < 0.6
+    with_second = rng.random() < 0.4
+    noloc_xsd = rng.random() < 0.6
+    noloc_wsdl = rng.random() < 0.12
+    base_from_types = with_base and rng.random() < 0.5
+    base_absolute = with_base and rng.random() < 0.4
+    p_root, p_types, p_common = app + "service.wsdl", sch + "types.xsd", sch + "common.xsd"
+    p_base, p_leaf, p_second, p_types2 = shared + "base.xsd", more + "leaf.xsd", other + "second.wsdl", other + "types2.xsd"
+    locs = []          # location strings as written in this site
+
+    def ref(from_dir, to_path, absolute=False):
+        s = (B + to_path) if absolute else relpath(from_dir, to_path)
+        locs.append(s)
+        return s
+    docs = {}
+    # WSDL
+    skids = [E("xsd:include", [("schemaLocation", ref(app, p_types))])]
+    if with_base:
+        skids.append(E("xsd:import", [("namespace", ns_loc), ("schemaLocation", ref(app, p_base, base_absolute))]))
+    if noloc_xsd:
+        skids.append(E("xsd:import", [("namespace", noloc[0])]))
+    dkids = []
+    if noloc_wsdl:
+        dkids.append(E("wsdl:import", [("namespace", noloc[1])]))
+    wsdl = mk_doc([], wsdl_body([T("site")], [("t", "http://c20.invalid/svc")], [("t", tns)], None,
+                                ref(app, p_second) if with_second else None, None, skids, dkids))
+    docs[B + p_root] = wsdl
+    # types.xsd (other directory), common.xsd next to it
+    tk = []
+    if with_common:
+        tk.append(E("xsd:include", [("schemaLocation", ref(sch, p_common))]))
+    if base_from_types:
+        tk.append(E("xsd:import", [("namespace", ns_loc), ("schemaLocation", ref(sch, p_base))]))
+    if noloc_xsd and rng.random() < 0.5:
+        tk.append(E("xsd:import", [("namespace", noloc[1])]))
+    tk.append(ctype_el("Outer", "genuine"))
+    docs[B + p_types] = schema_doc(tns, tk)
+    if with_common:
+        docs[B + p_common] = schema_doc(tns, [ctype_el("Inner", "genuine")])
+    if with_base:
+        bk = [E("xsd:include", [("schemaLocation", ref(shared, p_leaf))])] if with_leaf else []
+        if noloc_xsd and rng.random() < 0.3:
+            bk.append(E("xsd:import", [("namespace", noloc[0])]))
+        bk.append(E("xsd:simpleType", [("name", "B")], E("xsd:restriction", [("base", "xsd:string")])))
+        docs[B + p_base] = schema_doc(ns_loc, bk)
+        if with_leaf:
+            docs[B + p_leaf] = schema_doc(ns_loc, [E("xsd:simpleType", [("name", "Leaf")],
+                                                     E("xsd:restriction", [("base", "xsd:string")]))])
+    if with_second:
+        docs[B + p_second] = mk_doc([], E("wsdl:definitions", [("targetNamespace", W2_NS), ("xmlns:wsdl", WSDL_NS),
+                                                               ("xmlns:xsd", XSD_NS)],
+                                          E("wsdl:types", [], E("xsd:schema", [("targetNamespace", W2_NS)],
+                                            E("xsd:include", [("schemaLocation", ref(other, p_types2))])))))
+        docs[B + p_types2] = schema_doc(W2_NS, [ctype_el("Second", "genuine")])
+    served = {}
+    for u, d in docs.items():
+        d = g_restyle(rng, d)
+        if d["sdecl"] == "yes":
+            d["sdecl"] = "no"
+        served[u] = (d, render_doc(d, lambda x: "unused"))
+    # decoys: every wrongly resolved location, every URL a namespace would give, every earlier location
+    strings = list(dict.fromkeys(locs + noloc + list(history_locs)))
+    for sname in strings:
+        targets = [sname] if "://" in sname else [urllib.parse.urljoin(u, sname) for u in docs]
+        for t in targets:
+            if t in served or len(served) > 90:
+                continue
+            if t.endswith(".wsdl"):
+                served[t] = decoy_doc("wsdl", None)
+            else:
+                base = t.rsplit("/", 1)[-1]
+                guess = sname if sname in SHARED_NS_POOL else (
+                    ns_loc if base.startswith(("base", "leaf")) else (W2_NS if base.startswith("types2") else tns))
+                served[t] = decoy_doc("xsd", guess)
+    shape = "+".join(x for x, f in (("common", with_common), ("base", with_base), ("leaf", with_leaf),
+                                    ("second", with_second), ("noloc-xsd", noloc_xsd), ("noloc-wsdl", noloc_wsdl),
+                                    ("abs", base_absolute)) if f) or "types"
+    return {"root": B + p_root, "served": served, "shape": shape,
+            "locations": locs + [B + p_base] * bool(with_base) + [B + p_types]}
+
+
+def class_level_tables():
+    """repr of every dict / list / set held at class or module level inside the suds package
+    (process-global state that outlives a load)."""
+    import inspect
+    out = {}
+    for mn, m in list(sys.modules.items()):
+        if m is None or not (mn == "suds" or mn.startswith("suds.")):
+            continue
+        for cn, c in list(vars(m).items()):
+            try:
+                if inspect.isclass(c) and getattr(c, "__module__", "") == mn:
+                    for an, v in list(vars(c).items()):
+                        if isinstance(v, (dict, list, set)):
+                            out["%s.%s.%s" % (mn, cn, an)] = repr(v)[:20000]
+                elif isinstance(c, (dict, list, set)) and not cn.startswith("__"):
+                    out["%s.%s" % (mn, cn)] = repr(c)[:20000]
+            except Exception:   # noqa
+                pass
+    return out
+
+
 def declared_names(subset):
     """(internal, external) general entity names a reference in the body would find
     (first declaration wins; declarations after a parameter-entity reference may be skipped)."""
@@ -1285,7 +1438,8 @@ def MemTransport(docs, reply=None):
 
 
 def store_key(url):
-    return url.split("://", 1)[1]
+    parts = url.split("://", 1)
+    return parts[1] if len(parts) == 2 else url
 
 
 def run_reader(suds, doc, data, how, ctype="bytes", urlkind=None, counter=[0]):
@@ -1567,10 +1721,11 @@ def _intern(table, key, first):
     return i
 
 
-def loader_candidates(data, base_url, url_id):
+def loader_candidates(data, doc_url, url_id, rel_id, joins):
     """The elements of one document that could be taken for a reference (local name import / include /
     redefine, ANY namespace), as Coq `cand` terms for the loader model: path of expanded names, expanded
-    name, schemaLocation and location resolved against the document's URL.  None: ill-formed."""
+    name, schemaLocation and location AS WRITTEN (absolute / relative).  For every relative reference the
+    urljoin with THIS document's URL is added to `joins`.  None: ill-formed."""
     import xml.parsers.expat as expat
     p = expat.ParserCreate(namespace_separator=" ")
     p.SetParamEntityParsing(expat.XML_PARAM_ENTITY_PARSING_UNLESS_STANDALONE)
@@ -1583,8 +1738,11 @@ def loader_candidates(data, base_url, url_id):
 
     def loc(v):
         if not v:
-            return copt(None, "url")
-        return copt(cN(url_id(urllib.parse.urljoin(base_url, v) if "://" not in v else v)), "url")
+            return copt(None, "locref")
+        if "://" in v:
+            return "(Some (LAbs %s))" % cN(url_id(v))
+        joins.add((url_id(doc_url), rel_id(v), url_id(urllib.parse.urljoin(doc_url, v))))
+        return "(Some (LRel %s))" % cN(rel_id(v))
 
     def start(name, attrs):
         if name.rpartition(" ")[2] in ("import", "include", "redefine"):
@@ -1604,18 +1762,44 @@ def loader_candidates(data, base_url, url_id):
 
 
 def loader_case(docs, root_url, fetched, ok):
-    ids = {}
+    ids, rels, joins = {}, {}, set()
 
     def url_id(u):
-        return _intern(ids, u, 1)
+        return _intern(ids, str(u), 1)
+
+    def rel_id(r):
+        return _intern(rels, r, 1)
     items = []
     url_id(root_url)
     for u, (_, data) in docs.items():
-        c = loader_candidates(data, u, url_id)
+        c = loader_candidates(data, u, url_id, rel_id, joins)
         if c is not None:
             items.append("(%s, %s)" % (cN(url_id(u)), clist(c, "cand")))
-    return "(mkLcase %s %s %s %s)" % (cN(url_id(root_url)), clist(items, "url * list cand"),
-                                      clist([cN(url_id(u)) for u in fetched], "url"), cbool(ok))
+    return "(mkLcase %s %s %s %s %s)" % (
+        cN(url_id(root_url)), clist(items, "url * list cand"),
+        clist(["(%s, %s, %s)" % (cN(a), cN(b), cN(c)) for a, b, c in sorted(joins)], "url * N * url"),
+        clist([cN(url_id(u)) for u in fetched], "url"), cbool(ok))
+
+
+def import_namespaces(data):
+    """[(namespace, location or None)] of the {XSD}import / {WSDL}import elements of a document."""
+    import xml.parsers.expat as expat
+    p = expat.ParserCreate(namespace_separator=" ")
+    p.SetParamEntityParsing(expat.XML_PARAM_ENTITY_PARSING_UNLESS_STANDALONE)
+    p.ExternalEntityRefHandler = lambda *a: 1
+    out = []
+
+    def start(name, attrs):
+        if name == XSD_NS + " import":
+            out.append((attrs.get("namespace"), attrs.get("schemaLocation")))
+        elif name == WSDL_NS + " import":
+            out.append((attrs.get("namespace"), attrs.get("location")))
+    p.StartElementHandler = start
+    try:
+        p.Parse(bytes(data), True)
+    except expat.ExpatError:
+        pass
+    return out
 
 
 def named_closure(docs, root_url):
@@ -1797,6 +1981,41 @@ def _run(ck, suds, proof_ok):
     lcases, lmeta = [], []
     n_named_fetches = 0
     n_lookalike_loads = 0
+
+    load_log, first_bad_history = [], []
+
+    def judge_load(docs, root_url, via, ctype, label):
+        """One Client(...) construction over `docs` (everything the store / transport can serve), judged
+        against the documents THIS load names (computed independently of suds, namespace- and
+        position-aware, every reference resolved against its containing document's URL)."""
+        nonlocal n_named_fetches
+        named = named_closure(docs, root_url)
+        outs, requested, err, cap, ctx = run_client_load(suds, docs, root_url, via, ctype)
+        for o in outs:
+            o.label = label
+            outcomes.append(o)
+        fetched = [str(u) for u in cap.loaded] + [str(u) for u in requested if u not in cap.loaded]
+        bad = [u for u in fetched if u not in named]
+        if err is None and set(fetched) != set(named):
+            bad = bad or ["expected %r, fetched %r" % (named, fetched)]
+        imports = [x for u in named if u in docs for x in import_namespaces(docs[u][1])]
+        load_log.append({"root_url": root_url, "via": via, "content_type": ctype,
+                         "located": sorted(set(n for n, l in imports if n and l)),
+                         "documents": {u: b.decode("utf-8", "replace") for u, (_, b) in docs.items()}})
+        if bad and not load_requests_bad:
+            # the history that matters: the earliest earlier load that gave a location for a namespace this
+            # load imports WITHOUT one (what a process-global table would have remembered), then this load
+            unlocated = set(n for n, l in imports if n and not l)
+            origin = [h for h in load_log[:-1] if unlocated & set(h["located"])][:1]
+            first_bad_history.extend((origin or load_log[-3:-1]) + [load_log[-1]])
+        if bad:
+            load_requests_bad.append((bad, docs[root_url][1], root_url, via, ctype, named, fetched))
+        lcases.append(loader_case(docs, root_url, fetched, err is None))
+        lmeta.append((docs[root_url][1], root_url, via, ctype, named, fetched, err))
+        n_named_fetches += len(fetched)
+        ck.count("client-load-" + ("ok" if err is None else "raised"))
+        return err
+
     for k in range(n_load):
         via = "store" if k % 2 == 0 else "transport"
         urlkind = URL_KINDS[(k // 2) % 4]
@@ -1838,26 +2057,40 @@ def _run(ck, suds, proof_ok):
         docs = {root_url: (wsdl, render_doc(wsdl, sysid_of)), imp_url: (xsd, render_doc(xsd, sysid_of)),
                 w2_url: (w2, render_doc(w2, sysid_of)), inc_url: (inc, render_doc(inc, sysid_of)),
                 pre + "decoy.xsd": (decoy, render_doc(decoy, sysid_of))}
-        # the NAMED set is computed from the documents, independently of suds and namespace-aware
-        named = named_closure(docs, root_url)
-        outs, requested, err, cap, ctx = run_client_load(suds, docs, root_url, via, ctype)
-        for o in outs:
-            o.label = "client-load/%s/%s/%s" % (via, urlkind, ctype)
-            outcomes.append(o)
-        # only_named_fetches: the store / transport was asked for exactly the documents named by the caller
-        # and by import / include references (all of them when the load succeeds), never for anything else
-        fetched = list(cap.loaded) + [u for u in requested if u not in cap.loaded]
-        bad = [u for u in fetched if u not in named]
-        if err is None and set(fetched) != set(named):
-            bad = bad or ["expected %r, fetched %r" % (named, fetched)]
-        if bad:
-            load_requests_bad.append((bad, docs[root_url][1], root_url, via, ctype, named, fetched))
-        lcases.append(loader_case(docs, root_url, fetched, err is None))
-        lmeta.append((docs[root_url][1], root_url, via, ctype, named, fetched, err))
-        n_named_fetches += len(fetched)
-        ck.count("client-load-" + ("ok" if err is None else "raised"))
+        err = judge_load(docs, root_url, via, ctype, "client-load/%s/%s/%s" % (via, urlkind, ctype))
         if os.environ.get("C20_DEBUG") and err is not None:
             sys.stderr.write("client-load raised: %s\n" % err[:200])
+
+    # ---- 5. multi-directory sites, location-less imports, histories of loads in one process ----
+    # Every load is judged against ITS OWN named closure: references resolve against the URL of the
+    # document that contains them, an import without a location names nothing, and what an earlier load
+    # saw names nothing for a later one.  Decoy documents (marker content) are SERVED at every wrongly
+    # resolved location, at every URL a namespace identifier would give and at every location an earlier
+    # load used, so that a wrong fetch succeeds and shows.
+    tables_before = class_level_tables()
+    n_sites = 400 if thorough else 110
+    history_locs = []
+    for k in range(n_sites):
+        site = g_site(rng, k, history_locs)
+        via = "transport" if k % 3 else "store"
+        err = judge_load(site["served"], site["root"], via, CT3[k % 3], "site/%s/%s" % (via, site["shape"]))
+        history_locs.extend(x for x in site["locations"] if x not in history_locs)
+        del history_locs[:-40]
+        ck.count("site-" + ("ok" if err is None else "raised"))
+        ck.count("site:" + site["shape"])
+        if os.environ.get("C20_DEBUG") and err is not None:
+            sys.stderr.write("site load raised (%s): %s\n" % (site["shape"], err[:200]))
+    tables_after = class_level_tables()
+    doc_strings = set(history_locs)
+    retained = []
+    for name, val in sorted(tables_after.items()):
+        if tables_before.get(name) != val and any(x in val and x not in tables_before.get(name, "")
+                                                   for x in doc_strings if len(x) > 6):
+            retained.append(name)
+    ck.extra["class_level_tables_changed_by_loads"] = sorted(
+        n for n, v in tables_after.items() if tables_before.get(n) != v)
+    ck.extra["class_level_tables_retaining_document_locations"] = retained
+
     ck.extra["client_loads_with_foreign_namespace_lookalikes"] = n_lookalike_loads
 
     ck.extra["transport_requests_outside_named_documents"] = len(load_requests_bad)
@@ -1937,10 +2170,15 @@ def _run(ck, suds, proof_ok):
              "how": "./check C20 --replay <this file>  (re-parses `document` through `entry` under the audit hook)"})
     for bad, data, root_url, via, ctype, named, fetched in load_requests_bad[:1]:
         ck.failing_input("C20:fetched-unnamed-document",
-                         "loading a WSDL fetched %r through the %s: no {XSD}import/include or {WSDL}import names it "
-                         "(%d load(s) affected)" % (bad[:3], via, len(load_requests_bad)),
+                         "loading a WSDL fetched %r through the %s: no {XSD}import/include or {WSDL}import of THIS load "
+                         "names it (%d load(s) affected)%s" % (
+                             bad[:3], via, len(load_requests_bad),
+                             "; process-global table(s) retaining locations of earlier documents: %s" % ", ".join(retained)
+                             if retained else ""),
                          {"entry": "client-load", "document": data.decode("utf-8", "replace"), "root_url": root_url,
                           "via": via, "content_type": ctype, "named": named, "fetched": fetched,
+                          "history": first_bad_history if any(h["root_url"] == root_url for h in first_bad_history)
+                          else [], "class_level_tables_retaining_locations": retained,
                           "base": WORLD.base, "port": WORLD.port})
     for o in outcomes:
         fp = getattr(o, "fetch_problem", None)
@@ -2050,6 +2288,34 @@ def replay(ck, payload):
             o = (run_client_reply if entry == "client-reply" else run_client_msg)(suds, c, cap, doc, data)
         elif entry.startswith("reader-"):
             o = run_reader(suds, doc, data, entry.split("-", 1)[1], ctype if ctype in CTYPES else "bytes", urlkind)
+        elif entry == "client-load" and payload.get("history"):
+            # the loads of the history, in order, in this one process; the LAST one is judged against its own closure
+            def fix(t):
+                t = t.replace(payload.get("base") or "\0", WORLD.base)
+                if payload.get("port"):
+                    t = t.replace("127.0.0.1:%s/" % payload["port"], "127.0.0.1:%d/" % WORLD.port)
+                return t
+            hist = payload["history"]
+            k = max(i for i, h in enumerate(hist) if h["root_url"] == payload["root_url"])
+            o = None
+            for h in hist[:k + 1]:
+                docs = {fix(u): (None, fix(t).encode("utf-8")) for u, t in h["documents"].items()}
+                root_url = fix(h["root_url"])
+                ct = h.get("content_type", "bytes")
+                outs, requested, err, cap, ctx = run_client_load(suds, docs, root_url, h.get("via", "store"),
+                                                                 ct if ct in CTYPES else "bytes")
+                named = named_closure(docs, root_url)
+                fetched = [str(u) for u in cap.loaded] + [str(u) for u in requested if u not in cap.loaded]
+                print("load %s: named %r" % (root_url, named))
+                print("   fetched %r%s" % (fetched, "" if err is None else "  (raised %s)" % err[:120]))
+                o = Outcome("client-load", None, docs[root_url][1])
+                o.kind, o.exc = ("doc" if err is None else "raise"), err
+                o.flat = outs[0].flat if outs else None
+                o.events, o.hits, o.parsers = ctx.events, ctx.hits, ctx.parsers
+                extra = [u for u in fetched if u not in named]
+                if extra:
+                    o.fetch_problem = "fetched %r, which nothing in this load names" % (extra,)
+            text = fix(payload["document"])
         elif entry == "client-load" and payload.get("root_url"):
             # a single-document load through the same store / transport set-up
             root_url = payload["root_url"].replace(payload.get("base") or "\0", WORLD.base)
